@@ -1,10 +1,22 @@
-// harness binary of group "rates" (stub: replaced by the group's modes)
+// harness binary of group "rates": exchange-rate look-up (C12), rate cache
+// state machine (C13), crash-safety of the CSV rate cache (C14)
 #[path = "hcommon.rs"]
 mod hcommon;
+mod rates_mode;
 #[allow(dead_code)]
 mod util;
 pub use hcommon::guarded;
 
 fn main() {
-    hcommon::run_main(&[]);
+    // the crash child never returns through run_main's normal loop output:
+    // it is aborted by the hook in the cache write path
+    hcommon::run_main(&[
+        ("hist", rates_mode::hist),
+        ("rows", rates_mode::rows),
+        ("dates", rates_mode::dates),
+        ("parsecsv", rates_mode::parsecsv),
+        ("crash", rates_mode::crash),
+        ("crashchild", rates_mode::crashchild),
+        ("arith", rates_mode::arith),
+    ]);
 }
